@@ -49,6 +49,30 @@ func c10Run(f failer, cfg world.Cfg, p c10Params, steps []hist.Step) {
 	for _, s := range steps {
 		live.J.Add(s)
 	}
+	// ---- a fresh manager whose very first open for writing fails (with and without the
+	// overwrite flag of `operation initialize`): the drive is free for the calls behind it ----
+	if p.Only == nil && !guard("F-10b") {
+		for _, ow := range []bool{false, true} {
+			pr := &world.Probe{}
+			pr.Arm(world.SeamOpenWriter, 1, false)
+			dir := world.NewDir("c10first")
+			what := fmt.Sprintf("the first open for writing of a fresh manager fails (overwrite manager=%v)", ow)
+			var w *world.World
+			var err error
+			checkObs(f, hangOnly(hist.Call("New+Initialize", func() { w, err = world.New(cfg, world.Opts{Dir: dir, Probe: pr, Overwrite: ow}) })), what)
+			if err == nil && w != nil {
+				_, _, fired := pr.Snapshot()
+				pr.Disarm()
+				live.S.Class(fmt.Sprintf("first-open-fault:overwrite=%v:fired=%v", ow, fired))
+				live.S.AddInner(1)
+				checkObs(f, hangOnly(hist.Call("Initialize", func() { _, _ = w.FS.Initialize("/", os.ModePerm) })), what+": then Initialize again")
+				checkObs(f, hangOnly(hist.Call("Stat", func() { _, _ = w.FS.Stat("/") })), what+": then Stat")
+				checkObs(f, hangOnly(hist.Call("Mkdir", func() { _ = w.FS.Mkdir("/first", 0755) })), what+": then Mkdir")
+				w.Close()
+			}
+			_ = os.RemoveAll(dir)
+		}
+	}
 	// ---- fault-free dry run: count the interactions of every call at every seam ----
 	probe := &world.Probe{}
 	dry, err := hist.NewRunner(cfg, world.Opts{Probe: probe})
